@@ -62,6 +62,15 @@ Definition with_boundaries (m : Mesh) (bc : BCs) (phi : cvar F) : cvar F :=
                 | None => 0
                 end.
 
+(* CellVariable.plotprofile: the values of the padded array with every face ghost position replaced by the value AT the boundary face,
+   i.e. the average of the ghost cell and its interior neighbour (edge / corner positions are not specified here) *)
+Definition plot_profile (m : Mesh) (x : cvar F) : cvar F :=
+  fun c => if interior F m c then x c
+           else match ghost_axis m c with
+                | Some (a, hi) => (x c + x (if hi then cdn a c else cup a c)) / two
+                | None => x c
+                end.
+
 (* boundaryConditionsTerm: one row per non-interior cell *)
 Fixpoint kmaxl (l : list K) (d : K) : K :=
   match l with [] => d | x :: l' => kmax F x (kmaxl l' d) end.
